@@ -365,6 +365,17 @@ def run_harnesses(src, specs, logdir, jobs=8, build_first=True, build_timeout=90
                 results[kr.harness] = (kr, parsed)
                 log("  %-46s %-12s %6.1fs %s" % (kr.harness, parsed["error"] or parsed["verdict"], kr.wall,
                                                  ("vars=%s" % parsed["stats"].get("sat_vars")) if parsed["stats"].get("sat_vars") else ""))
+    # retry pass: a harness whose solver ran out of memory under its (small) reservation is re-run
+    # alone with most of the machine; only if that also fails is it reported inconclusive
+    if not _second_pass:
+        big = float(os.environ.get("VERIF_BIG_MEM_GB", "48"))
+        oom = [sp for sp in specs if results[sp["harness"]][1]["error"] == "cbmc-error" and sp.get("mem_gb", 12) < big]
+        if oom:
+            log("re-running %d harness(es) that ran out of memory, one at a time with %.0f GB" % (len(oom), big))
+            for sp in oom:
+                sp2 = dict(sp, mem_gb=big, timeout=int(sp.get("timeout", 600) * 1.5))
+                r2 = run_harnesses(src, [sp2], os.path.join(logdir, "bigmem"), jobs=1, build_first=False, _second_pass=True)
+                results[sp["harness"]] = r2[sp["harness"]]
     # second pass: harnesses that FAILED are re-run with concrete playback to obtain the values of the
     # counterexample (asking CBMC for traces on the first pass makes every cover! witness emit a full
     # trace, which is slow and can exhaust the driver's memory)
